@@ -198,6 +198,16 @@ class Broken(Exception):
     pass
 
 
+SIGS = {}
+
+
+def _try_ctype(p):
+    try:
+        return ctype(p)
+    except Exception:
+        return None
+
+
 CALLABLE = {}   # C++ function name -> Lean name of its whole-function translation (Funcs.lean)
 
 
@@ -411,9 +421,25 @@ class Tr:
                 else:
                     v = (1 << (w - 1)) if s else 0
                 return f"{v}#{w}"
-            if nm in CALLABLE:
-                args = [self.expr(a) for a in inner[1:]]
-                return "(Gen." + CALLABLE[nm] + " " + " ".join(args) + ")"
+            if nm in CALLABLE and CALLABLE[nm] in SIGS:
+                sg = SIGS[CALLABLE[nm]]
+                argmap = {}
+                for pn, a in zip(sg["order"], inner[1:]):
+                    argmap[pn] = a
+                out = []
+                for pn, ty in sg["allp"]:
+                    if pn in argmap and pn not in sg["ptrs"]:
+                        out.append(self.expr(argmap[pn]))
+                    else:
+                        hit = None
+                        for pp in sg["ptrs"]:
+                            if pn.startswith(pp + "_") and pp in argmap:
+                                on = self.obj_name(argmap[pp])
+                                hit = self.fv(on + "_" + pn[len(pp) + 1:], ty)
+                        if hit is None:
+                            raise Broken(f"cannot supply parameter {pn} of {nm}")
+                        out.append(hit)
+                return "(Gen." + CALLABLE[nm] + " " + " ".join(out) + ")"
             raise Broken(f"call to {nm}")
         if k == "UnaryExprOrTypeTraitExpr" and n.get("name") == "sizeof":
             ct = ctype(n)
@@ -449,6 +475,10 @@ class Tr:
             return x.get("name", "obj")
         if x.get("kind") == "CXXThisExpr":
             return ""
+        if x.get("kind") == "CXXMemberCallExpr" and x.get("inner"):
+            cal = x["inner"][0]
+            if cal.get("kind") == "MemberExpr" and cal.get("name") in ("get",) and cal.get("inner"):
+                return self.obj_name(cal["inner"][0])
         if x.get("kind") == "CXXOperatorCallExpr":   # e.g. unique_ptr::operator->
             for c in x.get("inner", [])[1:]:
                 r = self.obj_name(c)
@@ -779,6 +809,11 @@ def translate_site(site, consts, sizes, key):
             body = tr.expr(node)
             rty = lean_ty(ctype(node))
         allp = list(tr.free)
+    if site.get("select", "function") == "function":
+        ptrs = [lname(p["name"]) for p in fn.get("inner", []) if p.get("kind") == "ParmVarDecl"
+                and (lambda ct: ct is not None and ct[0] == "ptr")(_try_ctype(p)) and lname(p["name"]) not in dict(params)]
+        order = [lname(p["name"]) for p in fn.get("inner", []) if p.get("kind") == "ParmVarDecl"]
+        SIGS[site["lean"]] = {"order": order, "ptrs": ptrs, "allp": allp}
     sig = " ".join(f"({n} : {t})" for n, t in allp)
     src = f"{fn.get('loc', {}).get('line', fn.get('range', {}).get('begin', {}).get('line', '?'))}"
     txt = (f"/-- from `{site['filter']}` {site.get('targs', site.get('record', ''))} "
